@@ -6,11 +6,13 @@ Driver requests of property C07 (whole runs and phase tables).
       interp table  : list of  <tok> <hasInt> <int> <hasFlt> <pn> <pd>      (`int(tok)`, `float(tok)` as a fraction)
       floatStr table: list of  <tok> <str(float(tok))>
       base header   : list of  <key> <value>
-      rng₀, σ       : <graph draws (format of Driver/GraphBuild)> <formula draws (format of Driver/Rand)>
+      files         : list of  <path token> <content>       (after <fuel>)
+      rng₀, σ       : two streams each (parse phase, later): list of <vocabulary> <draw>: 0 graph samplers (format of Driver/GraphBuild),
+                      1 formula samplers (Driver/Rand), 2 networkx (Driver/NxBuild), 3 Shuffle (Driver/Shuffle)
                       (σ is the state `random.seed(s)` installs, for the seed of this command line)
-      answer: `OK T <#graph draws consumed> <#formula draws consumed> <code points of the text>` or
-              `OK E <outcome>`
-  shufflerun <argv> <stdin text> <input name> <base header> <rng₀ draws> <σ draws>      (draw format of Driver/Shuffle)
+      answer: `OK T <#draws consumed while parsing> <#draws consumed later> <code points of the text> W <files written>`
+              or `OK E <outcome>`
+  shufflerun <argv> <stdin text> <input name> <base header> <files> <rng₀ draws> <σ draws>      (draw format of Driver/Shuffle)
       answer: `OK T <#draws consumed> <code points of the text>` or `OK E <outcome>`
   phasetrace <tool> <hasSeed> <seed> <parseDraws> <buildDraws> <transDraws> <shuffleDraws>
       answer: the generator events an observer sees (P( seed other draws )P …)
@@ -29,13 +31,23 @@ import CnfgenModel.Cli.Run
 import CnfgenModel.Rand.Seeded
 import CnfgenModel.Cli.RunShuffle
 import CnfgenModel.Driver.Shuffle
+import CnfgenModel.Driver.NxBuild
 namespace Cnfgen.Driver.CliRun
 open Cnfgen Cnfgen.Driver Cnfgen.Cli Cnfgen.CliRun Cnfgen.GenPh
 
+def rdraw : P RDraw := do
+  let tag ← int
+  match tag with
+  | 0 => do let d ← GraphBuild.draw; pure (.g d)
+  | 1 => do let d ← Rand.draw; pure (.f d)
+  | 2 => do let d ← NxBuild.draw; pure (.nx d)
+  | 3 => do let d ← Shuffle.drawP; pure (.sh d)
+  | _ => failure
+
 def rng : P Rng := do
-  let g ← GraphBuild.draws
-  let f ← Rand.draws
-  pure ⟨g, f⟩
+  let p ← listOf rdraw
+  let l ← listOf rdraw
+  pure ⟨p, l⟩
 
 def interpRow : P (String × GCli.Arg) := do
   let tok ← str; let a ← GraphBuild.arg
@@ -47,6 +59,7 @@ def world : P World := do
   let base ← listOf (do let k ← str; let v ← str; pure (k, v))
   let dot ← bool
   let fuel ← nat
+  let files ← listOf (do let t ← str; let r ← str; pure (t, r))
   pure { gw := { interp := fun tok => (tab.lookup tok).getD ⟨none, none⟩
                  ext := none
                  openFile := .error .valueError
@@ -54,7 +67,11 @@ def world : P World := do
                  fuel := fuel
                  dot := dot }
          floatStr := fun tok => (ftab.lookup tok).getD "?"
-         baseHeader := base }
+         baseHeader := base
+         files := fun tok => files.lookup tok }
+
+def fmtWritten (l : List (String × String)) : String :=
+  " W " ++ toString l.length ++ l.foldl (fun acc p => acc ++ " " ++ Shuffle.fmtStr p.1 ++ " " ++ Shuffle.fmtStr p.2) ""
 
 def fmtOutcome : CliRun.Outcome × Nat × Nat → String
   | (.text s, ug, uf) => ok ("T " ++ toString ug ++ " " ++ toString uf ++ " " ++ fmtInts (intsOfStr s))
@@ -62,6 +79,11 @@ def fmtOutcome : CliRun.Outcome × Nat × Nat → String
   | (.crash e, _) => ok ("E crash:" ++ e.name)
   | (.unsupported why, _) => ok ("E unsupported:" ++ why.replace " " "_")
   | (.stuck, _) => ok "E stuck"
+
+def fmtResult (r : CliRun.Result) : String :=
+  match r.out with
+  | .text _ => fmtOutcome (r.out, r.usedParse, r.usedLater) ++ fmtWritten r.written
+  | o => fmtOutcome (o, 0, 0)
 
 def fmtTok : TraceTok → String
   | .parseBegin => "P("
@@ -81,16 +103,17 @@ def handle (opname : String) (a : Args) : Option String :=
       let w ← world
       let r0 ← rng
       let rs ← rng
-      pure (fmtOutcome (toolRun tool (fun _ => rs) w argv r0))) a
+      pure (fmtResult (toolRun tool (fun _ => rs) w argv r0))) a
   | "shufflerun" => run (do
       let argv ← listOf str
       let stdin ← str
       let name ← str
       let base ← listOf (do let k ← str; let v ← str; pure (k, v))
+      let files ← listOf (do let t ← str; let r ← str; pure (t, r))
       let r0 ← listOf Shuffle.drawP
       let rs ← listOf Shuffle.drawP
-      pure (match shuffleRun (fun _ => rs) ⟨name, base⟩ argv stdin r0 with
-        | (.text s, u) => ok ("T " ++ toString u ++ " " ++ fmtInts (intsOfStr s))
+      pure (match shuffleRun (fun _ => rs) ⟨name, base, fun tok => files.lookup tok⟩ argv stdin r0 with
+        | (.text s, u, wr) => ok ("T " ++ toString u ++ " " ++ fmtInts (intsOfStr s)) ++ fmtWritten wr
         | (o, _) => fmtOutcome (o, 0, 0))) a
   | "phasetrace" => run (do
       let tool ← str; let has ← bool; let s ← int
